@@ -137,4 +137,7 @@ def fonts_in(d):
 
 
 def tail(text, n=12):
-    return "\n".join(text.strip().splitlines()[-n:])[-1500:]
+    """Last n lines, preceded by ninja's FAILED: line and the first error-looking lines (the traceback tail alone says nothing)."""
+    lines = text.strip().splitlines()
+    head = [l for l in lines[:-n] if l.startswith("FAILED:") or "Error" in l or "error:" in l.lower()][:4]
+    return "\n".join([l[:300] for l in head] + lines[-n:])[-2200:]
